@@ -216,10 +216,15 @@ static int cmdWs( int argc, char ** argv ) {
     std::vector<std::string> a = positional( argc, argv );
     std::ostringstream o;
     o << "{";
+    // -same: every reload goes into the session the file was saved from (same Registry, InstMgr and STEPfile objects), as an
+    // editor does; otherwise every reload uses a fresh session
+    bool sameSession = hasFlag( argc, argv, "-same" );
+    Registry * registry0 = new Registry( SchemaInit );
+    InstMgr * im0 = new InstMgr;
+    STEPfile * sf0 = new STEPfile( *registry0, *im0, "", false );
     {
-        Registry registry( SchemaInit );
-        InstMgr im;
-        STEPfile sf( registry, im, "", false );
+        InstMgr & im = *im0;
+        STEPfile & sf = *sf0;
         sf.ReadExchangeFile( a[0] );
         o << "\"read0\":" << errJson( sf.Error() ) << ",\"before\":" << dumpMgr( im, false );
         std::string st = a[1];
@@ -247,6 +252,13 @@ static int cmdWs( int argc, char ** argv ) {
     }
     bool strictReload = hasFlag( argc, argv, "-s" );
     for( size_t k = 2; k + 1 < a.size(); k++ ) {
+        if( sameSession ) {
+            sf0->ReadWorkingFile( a[k] );
+            o << ",\"read" << ( k - 1 ) << "\":" << errJson( sf0->Error() ) << ",\"after" << ( k - 1 ) << "\":" << dumpMgr( *im0, true );
+            Severity w = sf0->WriteWorkingFile( a[k + 1] );
+            o << ",\"write" << k << "\":" << ( int ) w;
+            continue;
+        }
         Registry registry( SchemaInit );
         InstMgr im;
         STEPfile sf( registry, im, "", strictReload );
@@ -257,7 +269,7 @@ static int cmdWs( int argc, char ** argv ) {
     }
     o << "}";
     emit( o.str() );
-    return 0;
+    return 0;   // (the first session's objects are left to the process exit on purpose)
 }
 
 static std::string refsJson( instanceRefs_t * refs ) {
